@@ -480,6 +480,18 @@ def _norm1(e, ctx):
                     if val == a[1]:
                         return ('enum', cn, mem, val)
             return None
+        if fn in (('name', 'Signal'), ('attr', ('name', 'Signal'), 'like')) and (args or kwargs):
+            # explicit defaults say nothing: Signal(unsigned(n)) == Signal(n), Signal(1) == Signal(), init=0, reset_less=False
+            a2 = list(args)
+            if fn == ('name', 'Signal') and a2 and a2[0][0] == 'call' and a2[0][1] == ('name', 'unsigned') and len(a2[0][2]) == 1 and not a2[0][3]:
+                a2[0] = a2[0][2][0]
+            if fn == ('name', 'Signal') and len(a2) == 1 and a2[0] == ('const', 1):
+                a2 = []
+            kw2 = tuple((k_, v_) for k_, v_ in kwargs
+                        if not (k_ in ('init', 'reset') and v_ in (('const', 0), ('const', False))) and
+                        not (k_ == 'reset_less' and v_ == ('const', False)))
+            if tuple(a2) != args or kw2 != kwargs:
+                return ('call', fn, tuple(a2), kw2)
         if fn == ('name', 'hasattr') and len(args) == 2 and args[1][0] == 'const':
             return ('has', args[0], args[1][1])
         if fn == ('name', 'getattr') and len(args) == 2 and args[1][0] == 'const' and isinstance(args[1][1], str) and not kwargs:
@@ -505,6 +517,8 @@ def _norm1(e, ctx):
                 ctor = ctx.sigs[a[1]]
                 if ctor[0] == 'call' and ctor[2]:
                     w = ctor[2][0]
+                    if w[0] == 'call' and w[1] == ('name', 'unsigned') and len(w[2]) == 1 and not w[3]:
+                        w = w[2][0]                     # Signal(unsigned(n)) is n bits wide
                     if w[0] == 'call' and w[1] == ('name', 'len'):
                         return w
                     if w[0] == 'const' and isinstance(w[1], int):
@@ -580,6 +594,8 @@ def _norm1(e, ctx):
         op, a = e[1], e[2]
         if op in ('~', 'not') and a[0] == 'un' and a[1] == op:
             return a[2]
+        if op == 'not' and a[0] == 'const' and (isinstance(a[1], (bool, int)) or a[1] is None):
+            return ('const', not a[1])
         if op == 'not' and a[0] == 'cmp':
             inv = {'==': '!=', '!=': '=='}
             if a[1] in inv:
